@@ -456,6 +456,10 @@ class Model(Immutable):
     @cache_method
     def __hash__(self):
         dataset_hash = hash_df_runtime(self._dataset) if self._dataset is not None else None
+        if self._initial_individual_estimates is not None:
+            ie_hash = hash_df_runtime(self._initial_individual_estimates)
+        else:
+            ie_hash = None
         return hash(
             (
                 self._parameters,
@@ -464,7 +468,7 @@ class Model(Immutable):
                 self._dependent_variables,
                 self._observation_transformation,
                 self._execution_steps,
-                self._initial_individual_estimates,
+                ie_hash,
                 self._datainfo,
                 dataset_hash,
                 self._value_type,
